@@ -62,8 +62,8 @@ class NormFourierDomainExpression(NormFourierDomain, Expr):
         """Convert to discrete-time domain using inverse discrete-time
         Fourier transform."""
 
-        foo = self.subs(2 * pi * f * dt)
-        result = IDTFT(foo.expr, self.var, nsym, evaluate=evaluate)
+        foo = self.subs(f * dt)
+        result = IDTFT(foo.expr, fsym, nsym, evaluate=evaluate)
 
         return self.change(result, 'discrete time', units_scale=uu.Hz,
                            **assumptions)
